@@ -161,9 +161,136 @@ func (e *env) Valid(v Val) bool {
 	return true
 }
 
-func newSM(c *Case, self int) SM {
+func newSM(c *Case, self int) (SM, *env) {
 	e := &env{c: c}
-	return tendermint.New[Val, Hash, Addr](log.NewNopZapLogger(), Addr{uint64(self)}, e, e, types.Height(c.H0))
+	return tendermint.New[Val, Hash, Addr](log.NewNopZapLogger(), Addr{uint64(self)}, e, e, types.Height(c.H0)), e
+}
+
+// ---------- canonical dump of the implementation's whole state (same text as the oracle's "dump") ----------
+// Read through the verif hooks tendermint.VerifInspect and VoteCounter.VerifDump / VerifCountVote.
+func hexu(x types.VotingPower) string { return strconv.FormatUint(uint64(x), 16) }
+func b01(b bool) string {
+	if b {
+		return "1"
+	}
+	return "0"
+}
+func ballotsStr(b votecounter.VerifBallots[Addr]) string {
+	as := make([]uint64, 0, len(b.Ballots))
+	for a := range b.Ballots {
+		as = append(as, a[0])
+	}
+	sort.Slice(as, func(i, j int) bool { return as[i] < as[j] })
+	ps := make([]string, len(as))
+	for i, a := range as {
+		x := b.Ballots[Addr{a}]
+		ps[i] = fmt.Sprintf("%d:%s%s", a, b01(x[votecounter.Prevote]), b01(x[votecounter.Precommit]))
+	}
+	return hexu(b.PerVoteType[votecounter.Prevote]) + "/" + hexu(b.PerVoteType[votecounter.Precommit]) + "/" + hexu(b.Total) +
+		"[" + strings.Join(ps, ",") + "]"
+}
+func roundsStr(m map[types.Round]votecounter.VerifRound[Val, Hash, Addr]) string {
+	rs := make([]int, 0, len(m))
+	for r := range m {
+		rs = append(rs, int(r))
+	}
+	sort.Ints(rs)
+	out := make([]string, len(rs))
+	for i, r := range rs {
+		d := m[types.Round(r)]
+		prop := "nil"
+		if d.Proposal != nil {
+			prop = propStr(d.Proposal.Height, d.Proposal.Round, d.Proposal.Sender, d.Proposal.ValidRound, d.Proposal.Value)
+		}
+		ids := make([]uint64, 0, len(d.PerID))
+		for id := range d.PerID {
+			ids = append(ids, id[0])
+		}
+		sort.Slice(ids, func(a, b int) bool { return ids[a] < ids[b] })
+		is := make([]string, len(ids))
+		for k, id := range ids {
+			is[k] = fmt.Sprintf("%d=%s", id, ballotsStr(d.PerID[Hash{id}]))
+		}
+		out[i] = fmt.Sprintf("R%d{%s|%s|%s|%s|%s}", r, prop, hexu(d.Uncounted), strings.Join(is, ";"), ballotsStr(d.Nil), ballotsStr(d.All))
+	}
+	return strings.Join(out, " ")
+}
+func valStr(v *Val) string {
+	if v == nil {
+		return "-"
+	}
+	return strconv.FormatUint(uint64(*v), 10)
+}
+
+// probeIDs: nil, every id some round of the current height has a ballot set for, and two ids nobody voted for
+func probeIDs(d *votecounter.VerifCounter[Val, Hash, Addr]) []string {
+	seen := map[uint64]bool{41: true, 977: true}
+	for _, r := range d.Rounds {
+		for id := range r.PerID {
+			seen[id[0]] = true
+		}
+	}
+	ids := make([]uint64, 0, len(seen))
+	for id := range seen {
+		ids = append(ids, id)
+	}
+	sort.Slice(ids, func(a, b int) bool { return ids[a] < ids[b] })
+	out := []string{"nil"}
+	for _, id := range ids {
+		out = append(out, strconv.FormatUint(id, 10))
+	}
+	return out
+}
+
+func dumpImpl(sm SM, e *env) (text string, probe []string) {
+	st, vc, ok := tendermint.VerifInspect[Val, Hash, Addr](sm)
+	if !ok {
+		hx.Fatalf("tendermint.VerifInspect: not a state machine created by tendermint.New")
+	}
+	d := vc.VerifDump()
+	probe = probeIDs(&d)
+	s := strings.Join([]string{"S", strconv.FormatUint(uint64(st.Height), 10), strconv.Itoa(int(st.Round)), strconv.Itoa(int(st.Step)),
+		valStr(st.LockedValue), strconv.Itoa(int(st.LockedRound)), valStr(st.ValidValue), strconv.Itoa(int(st.ValidRound)),
+		b01(st.TimeoutPrevoteScheduled), b01(st.TimeoutPrecommitScheduled), b01(st.LockedValueAndOrValidValueSet), b01(st.IsHeightStarted),
+		strconv.FormatUint(uint64(st.LastTriggerSync), 10), strconv.FormatUint(uint64(st.LastQuorum), 10), strconv.Itoa(e.nval)}, " ")
+	s += " # VC " + strconv.FormatUint(uint64(d.Height), 10) + " t=" + hexu(d.Total) + " f=" + hexu(d.Faulty) + " q=" + hexu(d.Quorum) + " " + roundsStr(d.Rounds)
+	hs := make([]uint64, 0, len(d.Future))
+	for h := range d.Future {
+		hs = append(hs, uint64(h))
+	}
+	sort.Slice(hs, func(a, b int) bool { return hs[a] < hs[b] })
+	fs := make([]string, len(hs))
+	for i, h := range hs {
+		fs[i] = fmt.Sprintf("F%d(%s)", h, roundsStr(d.Future[types.Height(h)]))
+	}
+	s += " # " + strings.Join(fs, " ")
+	rs := make([]int, 0, len(d.Rounds))
+	for r := range d.Rounds {
+		rs = append(rs, int(r))
+	}
+	sort.Ints(rs)
+	var cs []string
+	for _, r := range rs {
+		for _, p := range probe {
+			var id *Hash
+			ids := "-"
+			if p != "nil" {
+				n, _ := strconv.ParseUint(p, 10, 64)
+				id = &Hash{n}
+				ids = p
+			}
+			pv, _ := vc.VerifCountVote(types.Round(r), votecounter.Prevote, id)
+			pc, _ := vc.VerifCountVote(types.Round(r), votecounter.Precommit, id)
+			// the public predicate must be the same comparison with the quorum
+			if vc.HasQuorumForVote(types.Round(r), votecounter.Prevote, id) != (pv >= d.Quorum) ||
+				vc.HasQuorumForVote(types.Round(r), votecounter.Precommit, id) != (pc >= d.Quorum) {
+				ids += "!quorum-predicate"
+			}
+			cs = append(cs, fmt.Sprintf("C%d:%s=%s/%s", r, ids, hexu(pv), hexu(pc)))
+		}
+	}
+	s += " # " + strings.Join(cs, " ")
+	return s, probe
 }
 
 // ---------- canonical text of actions (same format as the oracle prints) ----------
@@ -246,8 +373,11 @@ func apply(sm SM, i In) []string {
 
 // lockstep of one real instance with one oracle process
 type pair struct {
-	sm  SM
-	or  *hx.Oracle
+	sm     SM
+	env    *env
+	noDump bool // set after the first state-only difference: the case goes on so that the monitor can find a failing input
+	soft   bool // the last feed's difference was in the internal state only (returned actions agreed)
+	or     *hx.Oracle
 	c   *Case
 	log []string // "input => actions"
 }
@@ -255,7 +385,8 @@ type pair struct {
 func newPair(or *hx.Oracle, c *Case, self int) *pair {
 	curM = c.M
 	or.Ask(c.newLine(self)+"\nfq 1", 1) // "new" has no reply; piggy-back a cheap request to stay in sync
-	return &pair{sm: newSM(c, self), or: or, c: c}
+	sm, e := newSM(c, self)
+	return &pair{sm: sm, env: e, or: or, c: c}
 }
 
 // feed returns the implementation's actions and a non-empty diff description on a mismatch
@@ -271,7 +402,37 @@ func (p *pair) feed(i In) (acts []string, diff string) {
 	if rep != impl {
 		return acts, fmt.Sprintf("input %q: model %q, implementation %q", i.String(), rep, impl)
 	}
+	// the whole internal state (consensus variables, every ballot of the vote counter, the future-height buffer,
+	// countVote of every round for seen and unseen ids) after the call
+	p.soft = false
+	if p.noDump {
+		return acts, ""
+	}
+	st, probe := dumpImpl(p.sm, p.env)
+	mst := p.or.Ask("dump "+strings.Join(probe, ","), 1)[0]
+	if mst != st {
+		p.soft = true
+		return acts, fmt.Sprintf("input %q: state after the call: model %q, implementation %q", i.String(), stateDiff(mst, st), stateDiff(st, mst))
+	}
 	return acts, ""
+}
+
+// stateDiff keeps the fields of a that differ from b (the dumps are long)
+func stateDiff(a, b string) string {
+	fa, fb := strings.Fields(a), strings.Fields(b)
+	var out []string
+	for i, x := range fa {
+		if i >= len(fb) || fb[i] != x {
+			out = append(out, fmt.Sprintf("[%d]%s", i, x))
+		}
+		if len(out) >= 6 {
+			break
+		}
+	}
+	if len(out) == 0 && len(fb) > len(fa) {
+		return fmt.Sprintf("(%d fields fewer)", len(fb)-len(fa))
+	}
+	return strings.Join(out, " ")
 }
 
 type auditRes struct {
@@ -602,12 +763,13 @@ func auditCase(or *hx.Oracle, c *Case) (auditRes, *pair) {
 func auditBad(a auditRes) bool { return a.disc && (a.codes != "-" || !a.ndv) }
 
 func reportMismatch(ctx *hx.Ctx, or *hx.Oracle, c *Case, idx int) {
-	c.Inputs = c.Inputs[:idx+1]
-	// is the sequence that exposed the mismatch a failing input of the property itself?
+	// is the sequence that exposed the mismatch (continued after a difference in the internal state only)
+	// a failing input of the property itself?
 	if a, _ := auditCase(or, c); auditBad(a) {
 		cc := *c
 		reportAudit(ctx, or, &cc, a)
 	}
+	c.Inputs = c.Inputs[:idx+1]
 	small := shrink(or, c, func(t *Case) bool { k, _, _, _ := runCase(or, t); return k >= 0 })
 	_, d, _, _ := runCase(or, small)
 	ctx.Violation("step-mismatch:"+tagOf(d), "model and implementation disagree: "+d, small, true)
@@ -736,6 +898,7 @@ func runSim(ctx *hx.Ctx, ors []*hx.Oracle, r *hx.RNG, sc simCfg, idx int) {
 	var decs []dec
 	rounds := map[int]int{}
 	failed := false
+	softAt := map[int]int{}
 
 	var deliver func(to int, in In)
 	handle := func(to int, in In, acts []string) {
@@ -782,6 +945,12 @@ func runSim(ctx *hx.Ctx, ors []*hx.Oracle, r *hx.RNG, sc simCfg, idx int) {
 		cases[to].Inputs = append(cases[to].Inputs, in)
 		acts, d := p.feed(in)
 		ctx.Hist["sim:"+in.K]++
+		if d != "" && p.soft {
+			// internal state differs, actions agree: keep simulating (agreement / monitor may now fail), report at the end
+			p.noDump = true
+			softAt[to] = len(cases[to].Inputs) - 1
+			d = ""
+		}
 		if d != "" {
 			failed = true
 			c := *cases[to]
@@ -862,6 +1031,14 @@ func runSim(ctx *hx.Ctx, ors []*hx.Oracle, r *hx.RNG, sc simCfg, idx int) {
 	if failed {
 		return
 	}
+	defer func() {
+		for _, i := range correct {
+			if k, ok := softAt[i]; ok {
+				c := *cases[i]
+				reportMismatch(ctx, pairs[i].or, &c, k)
+			}
+		}
+	}()
 	// agreement on the decisions of the correct instances (the extracted predicate)
 	parts := make([]string, len(decs))
 	byH := map[uint64]uint64{}
@@ -967,8 +1144,16 @@ func main() {
 				seen[t] = true
 				ctx.Hist["act:"+t]++
 			}
-			if d != "" {
+			if d != "" && p.soft && mism < 0 {
+				// same actions, different internal state: remember the place, stop comparing states and let the
+				// case run on (the monitor below then searches this very history for a failing input)
 				mism = k
+				p.noDump = true
+				ctx.Hist["state-only-mismatch"]++
+			} else if d != "" {
+				if mism < 0 {
+					mism = k
+				}
 				break
 			}
 			g.observe(in, acts)
